@@ -252,15 +252,44 @@ def replay_and_judge(binary, beh_file, outdir, name, shards=8, epilogues="c02,dr
     os.makedirs(outdir, exist_ok=True)
 
     def one(i):
-        tr = os.path.join(outdir, f"{name}.{i}.trace.ndjson")
-        rp = os.path.join(outdir, f"{name}.{i}.report.json")
-        p = run_harness(binary, ["replay", "--in", beh_file, "--trace", tr, "--report", rp, "--epilogues", epilogues,
-                                 "--shard", f"{i}/{shards}"])
-        if p.returncode != 0:
-            return {"crash": True, "rc": p.returncode, "stderr": p.stderr[-2000:], "shard": i, "trace": tr}
-        rep = json.load(open(rp))
-        v = monitor(tr, outdir, f"{name}.{i}", timeout=monitor_timeout)
-        return {"crash": False, "report": rep, "verdict": v, "shard": i, "trace": tr}
+        """One shard.  A crash of the harness (SIGSEGV, abort) while it replays a behaviour through
+        the SAFE public API is data: the behaviour is re-run alone to confirm, recorded, and the
+        shard continues behind it."""
+        frm = 0
+        part = 0
+        reps, verdicts, traces, crashes = [], [], [], []
+        while True:
+            tr = os.path.join(outdir, f"{name}.{i}.{part}.trace.ndjson" if part else f"{name}.{i}.trace.ndjson")
+            rp = os.path.join(outdir, f"{name}.{i}.report.json")
+            pg = os.path.join(outdir, f"{name}.{i}.progress")
+            p = run_harness(binary, ["replay", "--in", beh_file, "--trace", tr, "--report", rp, "--epilogues", epilogues,
+                                     "--shard", f"{i}/{shards}", "--from", str(frm), "--progress", pg])
+            if p.returncode == 0:
+                reps.append(json.load(open(rp)))
+                verdicts.append(monitor(tr, outdir, f"{name}.{i}.{part}", timeout=monitor_timeout))
+                traces.append(tr)
+                break
+            try:
+                idx = int(open(pg).read().strip() or "-1")
+            except (OSError, ValueError):
+                idx = -1
+            if idx < 0 or len(crashes) >= 25:
+                return {"crash": True, "rc": p.returncode, "stderr": p.stderr[-2000:], "shard": i, "trace": tr}
+            # confirm: the behaviour alone, from a fresh process
+            one_f = os.path.join(outdir, f"{name}.{i}.crash{idx}.ndjson")
+            with open(beh_file) as fh:
+                for k, line in enumerate(fh):
+                    if k == idx:
+                        open(one_f, "w").write(line)
+                        break
+            q = run_harness(binary, ["replay", "--in", one_f, "--trace", one_f + ".trace", "--report", one_f + ".rep",
+                                     "--epilogues", epilogues])
+            crashes.append({"beh": idx, "rc": p.returncode, "confirmed": q.returncode != 0, "rc_alone": q.returncode})
+            if os.path.exists(tr):
+                os.remove(tr)      # the partial trace ends mid-behaviour
+            frm = idx + 1
+            part += 1
+        return {"crash": False, "reports": reps, "verdicts": verdicts, "shard": i, "traces": traces, "crashes": crashes}
 
     with ThreadPoolExecutor(max_workers=min(shards, NCPU)) as ex:
         parts = list(ex.map(one, range(shards)))
@@ -271,18 +300,25 @@ def replay_and_judge(binary, beh_file, outdir, name, shards=8, epilogues="c02,dr
         if p["crash"]:
             merged["crashes"].append({"shard": p["shard"], "rc": p["rc"], "stderr": p["stderr"]})
             continue
-        rep, v = p["report"], p["verdict"]
-        for k in ("behaviours", "runs", "ops", "events", "drift", "diverged", "skipped_ops"):
-            merged[k] += rep.get(k, 0)
-        merged["drift_samples"] += rep.get("drift_samples", [])[:3]
-        merged["nviol"] += v["nviol"]
-        for x in v["viol"]:
-            merged["viol"].append({"prop": x[0], "rule": x[1], "line": x[2], "obj": x[3], "beh": x[4],
-                                   "trace": p["trace"]})
-        for k, n in v["hits"].items():
-            merged["hits"][k] = merged["hits"].get(k, 0) + n
-        merged["monitor_events"] += v["events"]
-        merged["monitor_wall_s"] = max(merged["monitor_wall_s"], v["wall_s"])
+        for c in p["crashes"]:
+            if c["confirmed"]:
+                # undefined behaviour reached through the safe API: the consequence clause of C01
+                merged["viol"].append({"prop": "C01", "rule": "crash", "line": 0, "obj": c["rc_alone"], "beh": c["beh"],
+                                       "trace": ""})
+                merged["nviol"] += 1
+            else:
+                merged["crashes"].append({"shard": p["shard"], "rc": c["rc"], "stderr": "crash not reproducible alone"})
+        for rep, v, tr in zip(p["reports"], p["verdicts"], p["traces"]):
+            for k in ("behaviours", "runs", "ops", "events", "drift", "diverged", "skipped_ops"):
+                merged[k] += rep.get(k, 0)
+            merged["drift_samples"] += rep.get("drift_samples", [])[:3]
+            merged["nviol"] += v["nviol"]
+            for x in v["viol"]:
+                merged["viol"].append({"prop": x[0], "rule": x[1], "line": x[2], "obj": x[3], "beh": x[4], "trace": tr})
+            for k, n in v["hits"].items():
+                merged["hits"][k] = merged["hits"].get(k, 0) + n
+            merged["monitor_events"] += v["events"]
+            merged["monitor_wall_s"] = max(merged["monitor_wall_s"], v["wall_s"])
     return merged
 
 
